@@ -47,8 +47,15 @@ TARGETS = [
 ]
 
 
-def build_metamodule(H, n, pfx="mm.", nested=False):
+def build_metamodule(H, n, pfx="mm.", nested=False, raised_to=None):
     m = MetaModule()
+    if raised_to is not None:
+        # history: the count was higher before (labels and values were given to controllers that are
+        # hidden again afterwards)
+        m.user_defined_controllers = raised_to
+        for i in range(raised_to):
+            m.user_defined[i].label = f"old {i}"
+            m.controller_values[f"user_defined_{i + 1}"] = 100 + i
     inner = m.project
     amp = inner.new_module(Amplifier, name="inner amp")
     lfo = inner.new_module(Lfo, name="inner lfo")
@@ -135,6 +142,8 @@ def _count_cases(tier):
             out.append((f"n={n},{ctx}", (n, ctx, False)))
     out.append(("nested,n=3,synth", (3, "synth", True)))
     out.append(("nested,n=3,project", (3, "project", True)))
+    out.append(("lowered_6_to_2,synth", (2, "synth", "lowered")))
+    out.append(("lowered_6_to_2,project", (2, "project", "lowered")))
     return out
 
 
@@ -146,7 +155,11 @@ def metamodule_roundtrip(H, case):
     (its modules' controllers, its pattern cells, a nested MetaModule) are preserved; the file carries
     exactly 5 + n controller values."""
     n, ctx, nested = case
-    m = build_metamodule(H, n, nested=nested)
+    if nested == "lowered":
+        m = build_metamodule(H, n, raised_to=6)
+    else:
+        m = build_metamodule(H, n, nested=nested)
+    H.check("in_memory_exactly_first_n_exposed", [ud.attached(m) for ud in m.user_defined] == [i < n for i in range(96)])
     if ctx == "synth":
         data = rw.write_container(H, Synth(m))
         q = rw.read_back(H, data).module
